@@ -180,7 +180,8 @@ func checkC03(w *World, tier string) *Report {
 		"R3.1 (go/ssa + guard entailment by Fourier-Motzkin, wrap-around aware) every index, slice, make, integer division and Memory.GetCopy/GetPtr precondition in every fork-only function of vm and in every fork insertion of a modified function is entailed by the guards that dominate it; " +
 		"R3.2 a pointer field of a precompile instance that the shared table leaves nil (contextWriter.ctx) is dereferenced only under a dominating non-nil test; " +
 		"R3.3 fork-only code contains no explicit panic and no single-result type assertion; " +
-		"R3.4 bookkeeping is closed on every path: deferred ExitCall (C07 R7.1), depth restored by the clone of Run. Memory.Copy's bounds rest on a stated interpreter-contract assumption tied to a who-may-call obligation. Host callbacks, StateDB and the Aspect runtime are outside the analysed program."
+		"R3.4 bookkeeping is closed on every path: deferred ExitCall (C07 R7.1), depth restored by the clone of Run; " +
+		"R3.5 (forward must-analysis on the SSA CFG, load-numbered field cells) a pointer, interface or map field that some construction in the fork leaves unset, or into which nil is stored (EVMInterpreter.hasher, CallTree.current/root, Call.Parent, StorageKey.changes …), is dereferenced in fork-only code only where every path has tested it non-nil or assigned it a non-nil value with no possible re-assignment in between. Memory.Copy's bounds rest on a stated interpreter-contract assumption tied to a who-may-call obligation. Host callbacks, StateDB and the Aspect runtime are outside the analysed program."
 	targets := w.rangeTargets(pkVM)
 	n := addRangeRule(w, r, "R3.1", targets, func(fn *ssa.Function) bool { return !fnIn("vm.(*bls12381G2MultiExp).Run")(fn) })
 	r.Analysed["bounds_obligations"] = n
@@ -189,6 +190,8 @@ func checkC03(w *World, tier string) *Report {
 	addNilCtxRule(w, r, "R3.2")
 	addNoPanicRule(w, r, "R3.3", targets)
 	addR71(w, r, "R3.4")
+	addNilFieldRule(w, r, "R3.5", targets, nil)
+	r.need("R3.5", 8)
 	r.Assumptions = append(r.Assumptions, "initialised host: BlockContext.BlockNumber non-nil, Aspect provider and context callbacks set (stated in the property)", "values handed to EVM.Call/Create by the host fit 256 bits (uint256.MustFromBig)", assumedPre["(*P0.Memory).Copy"].why)
 	return r
 }
@@ -451,6 +454,12 @@ func checkC09(w *World, tier string) *Report {
 	r.need("R9.2", 2)
 	r.need("R9.4", 2)
 	addPositionalBytesRule(w, r, "R9.3")
+	addLayoutRule(w, r, "R9.5")
+	addLengthAgreementRule(w, r, "R9.6")
+	addSlotProgressionRule(w, r, "R9.7")
+	r.need("R9.5", 2)
+	r.need("R9.6", 2)
+	r.need("R9.7", 2)
 	return r
 }
 
@@ -718,9 +727,15 @@ func dependsOn(v ssa.Value, h *ssa.Call, depth int) bool {
 			return true
 		}
 	}
-	// loads of locals: follow stores
+	// loads of locals (and slices of local arrays): follow stores
+	var cell ssa.Value
 	if u, ok := v.(*ssa.UnOp); ok && u.Op == token.MUL {
-		if a, ok := u.X.(*ssa.Alloc); ok {
+		cell = u.X
+	} else if al, ok := v.(*ssa.Alloc); ok {
+		cell = al
+	}
+	if cell != nil {
+		if a, ok := cell.(*ssa.Alloc); ok {
 			for _, r := range *a.Referrers() {
 				if st, ok := r.(*ssa.Store); ok && st.Addr == ssa.Value(a) && dependsOn(st.Val, h, depth-1) {
 					return true
@@ -816,6 +831,7 @@ func checkC19(w *World, tier string) *Report {
 	r.Explanation = "Structural necessary condition 'finish without panic' only: R19.1 (E3) every index/slice obligation in the fork-only functions of tracers/native and in the fork insertions of its modified functions (CaptureAspectEnter/Exit, CaptureExit, clearFailedLogs, flatFromNested, flatAspectNested, newFlatJoinPoint …) is entailed by the dominating guards, given the reviewed field invariant len(callTracer.callstack) >= 1 (R19.0, checked inductively: the constructor makes one frame and the only shrinking store keeps size-1 >= 1 elements); plus the inherited flatCallTracer.CaptureExit, whose safety rested on a callee postcondition the fork changed. Inherited tracer code that is a clone of the reference is the reference's (C18) and is not re-analysed. " +
 		"Not decided: which open Aspect frame an exit is matched to, exactly-once emission, sub-trace counts and trace-address uniqueness — properties of event histories, outside static reach."
 	targets := w.rangeTargets(pkNative)
+	ownTargets := append([]*ssa.Function{}, targets...) // the nil-field rule is for fork code only; the inherited extra target keeps the reference's own invariants (a CALL frame always has a destination)
 	for name := range extraRangeTargets {
 		for _, fn := range w.Funcs(forkPath(pkNative)) {
 			if relName(fn) == name {
@@ -826,6 +842,7 @@ func checkC19(w *World, tier string) *Report {
 	addRangeRule(w, r, "R19.1", targets, nil)
 	r.need("R19.1", 30)
 	addCallstackInvariant(w, r, "R19.0")
+	addNilFieldRule(w, r, "R19.3", ownTargets, nil)
 	r.Assumptions = append(r.Assumptions, "the EVM emits well-nested event streams (C18 R18.2 capture balance)")
 	return r
 }
